@@ -206,3 +206,41 @@ class BriefChain(Harness):
             x = [rnd.choice([1, 0x7f, 0x80, 0xff, rnd.randrange(1, 256)])] + [rnd.randrange(256) for _ in range(case['n'] - 1)]
             vs.append(dict(x=x))
         return vs
+
+
+class ClassicOptimize(OutputOptimize):
+    """the whole classic CLVM optimiser (optimize_sexp with all its rules and the memo table), meaning judged by clvmr"""
+    name = 'optimize_sexp'
+    prop = 'C04'
+    kernel = 'classic_optimize'
+    functions = ['stage_2::optimize::optimize_sexp', 'optimize_sexp_', 'cons_optimizer', 'constant_optimizer', 'cons_q_a_optimizer',
+                 'var_change_optimizer_cons_eval', 'children_optimizer', 'path_optimizer', 'quote_null_optimizer', 'apply_null_optimizer',
+                 'sub_args', 'path_from_args', 'cons_f', 'cons_r', 'seems_constant', 'seems_constant_tail', 'non_nil', 'pattern_match::match_sexp',
+                 'unify_bindings', 'classic sexp::{atom,first,rest,enlist,proper_list,equal_to,map_m,fold_m}', 'AllocatorRefOrTreeHash::new_from_sexp',
+                 'sha256tree', 'NodePath::*', 'compose_paths', 'DefaultProgramRunner::run_program',
+                 'clvmr run_program (both as the delegate of constant_optimizer and as the oracle, from clvmr MIR)']
+    assumptions = ['programs: every tree of the stated number of leaves whose leaves are nil or one byte from {1..9}; environments: the stated shapes with arbitrary one-byte leaves',
+                   'assemble() of the constant rule patterns is evaluated natively; SHA-256 (memo keys) is an injective uninterpreted function',
+                   'one-directional: only required when the unoptimised program returns a value']
+    outside = 'larger programs; the other operators'
+    spec = {'quick': dict(leaves=(1, 2, 3), envs=(['L', 'L'],)), 'thorough': dict(leaves=(1, 2, 3, 4), envs=(['L', 'L'], ['L', ['L', 'L']]))}
+    loop_bound = 300
+
+    def run(self, eng, case, inp):
+        eng.env['tls'] = tls(True)
+        for b in inp['atoms']:
+            if b.c is None:
+                eng.assume(z3.Or(*[b.e == v for v in ALPHABET]))
+        prog = build_prog(case['prog'], iter(inp['atoms']))
+        env = build_tree(case['env'], iter(inp['env']))
+        alloc = Ref(Cell(Struct('Allocator', [])))
+        dialect = Struct('ChiaDialect', [mkint(0x0102, 'u32')])
+        before = eng.call('run_program::run_program', [alloc, Ref(Cell(dialect)), prog, env, mkint(0, 'u64')])
+        if before.variant != 'Ok':
+            return dict(before=before, after=None, opt=None)
+        runner = Cell(Struct('DefaultProgramRunner', []), 'rc')
+        r = eng.call('optimize::optimize_sexp', [alloc, prog, runner])
+        if r.variant != 'Ok':
+            return dict(before=before, after=None, opt=r)
+        after = eng.call('run_program::run_program', [alloc, Ref(Cell(dialect)), r.fields[0], env, mkint(0, 'u64')])
+        return dict(before=before, after=after, opt=r.fields[0])
